@@ -14,31 +14,32 @@ def G(name, instances, models, shadow=False, **cxx):
 BASE = ['c05_str.c', 'c05_list.c', 'models.c']
 CUT = BASE + ['c05_cut.c']
 Q = ('quick', 'thorough'); T = ('thorough',)
-QUICK_CHOOSE = {(0, 0), (1, 2), (2, 1), (2, 2), (3, 0), (3, 2)}
+QUICK_CHOOSE = {(0, 0), (1, 2), (2, 2), (3, 2)}
+MEM = {0: 2.5, 1: 4, 2: 5, 3: 6}
 def od(o, d): return {'C05_NOFF': o, 'C05_NDIS': d}
 def choose(o, d):
-    return I('choose_o%d_d%d' % (o, d), 'h_choose', cdefs=od(o, d), tiers=Q if (o, d) in QUICK_CHOOSE else T,
+    return I('choose_o%d_d%d' % (o, d), 'h_choose', cdefs=od(o, d), tiers=Q if (o, d) in QUICK_CHOOSE else T, mem_gb=MEM[o],
              bound='offer list of exactly %d names, disabled list of exactly %d names, preferred name or none, %s; password / 3 X-token flags / HT token with any of the 28 HT mechanisms' % (o, d, TABLE))
 SPEC = dict(
     property='C05',
     groups=[
         # lemma on the REAL parser (no cut): SaslMechanism::fromString(name_i) == meaning of row i, symbolic row
-        G('parse', [I('parse_table', 'h_parse_table', unwind=2, bound='every row of the 53-name table (symbolic row index)')], BASE),
-        G('parse_alias', [I('parse_alias', 'h_parse_table', unwind=2, known_finding='ht-alias-name', bound='row 52 "HT-SHA-256SHA-384-NONE"')], BASE, VP_WITH_ALIAS=1, VP_ROW_LO=52, VP_ROW_HI=53),
+        G('parse', [I('parse_table', 'h_parse_table', unwind=2, mem_gb=2.5, bound='every row of the 53-name table (symbolic row index)'),
+                    I('parse_alias', 'h_parse_table', unwind=2, mem_gb=2.5, cdefs={'C05_ROW_LO': 52, 'C05_ROW_HI': 53}, bound='row 52 "HT-SHA-256SHA-384-NONE" (regression check of the repaired HT parser)')], BASE),
         # REAL chooseMechanism / isMechanismAvailable / variant order / configuration, fromString cut to the lemma
         G('choose_cut', [choose(o, d) for o in (0, 1, 2, 3) for d in (0, 1, 2)]
-                        + [I('default_plain_o%d' % o, 'h_default_plain', cdefs=od(o, 0), tiers=Q if o in (1, 3) else T,
+                        + [I('default_plain_o%d' % o, 'h_default_plain', cdefs=od(o, 0), mem_gb=MEM[o], tiers=Q if o == 3 else T,
                              bound='default-constructed configuration (disabled = {PLAIN} from the constructor), offer list of exactly %d names' % o) for o in (1, 2, 3)]
-                        + [I('mismatch_sasl1_o%d' % o, 'h_mismatch_sasl1', cdefs=od(o, 2), tiers=Q if o == 3 else T,
+                        + [I('mismatch_sasl1_o%d' % o, 'h_mismatch_sasl1', cdefs=od(o, 2), mem_gb=4, tiers=Q if o == 3 else T,
                              bound='SaslManager::authenticate, offer list of exactly %d names, nothing permitted' % o) for o in (0, 2, 3)]
-                        + [I('mismatch_sasl2_o%d_f%d' % (o, f), 'h_mismatch_sasl2', cdefs=dict(od(o, 2), C05_FASTBITS=f), object_bits=12, tiers=Q if (o, f) in ((3, 7), (3, 5)) else T,
+                        + [I('mismatch_sasl2_o%d_f%d' % (o, f), 'h_mismatch_sasl2', cdefs=dict(od(o, 2), C05_FASTBITS=f), object_bits=12, mem_gb=4, tiers=Q if (o, f) == (3, 7) else T,
                              bound='Sasl2Manager::authenticate, %d names of which the last one inside <fast/>, FAST bits %d (1 server offers fast, 2 enabled in config, 4 user agent set), nothing permitted' % (o, f)) for o in (1, 3) for f in (7, 6, 5, 3, 0)],
           CUT, shadow=True),
         # composition check without the cut: real parser inside the real choice
-        G('e2e', [I('e2e_o1_d1', 'h_choose', cdefs=od(1, 1), bound='uncut, offer list of exactly 1 name, 1 disabled name'),
+        G('e2e', [I('e2e_o1_d1', 'h_choose', cdefs=od(1, 1), mem_gb=4, bound='uncut, offer list of exactly 1 name, 1 disabled name'),
                   I('e2e_o2_d2', 'h_choose', cdefs=od(2, 2), tiers=T, mem_gb=14, timeout_s=1500, bound='uncut, offer list of exactly 2 names, 2 disabled names'),
-                  I('alias_bypass', 'h_alias_bypass', cdefs=od(1, 1), known_finding='ht-alias-name', bound='concrete: offer ["HT-SHA-256SHA-384-NONE"], disabled ["HT-SHA-384-NONE"], token HT-SHA-384-NONE')],
-          BASE, VP_WITH_ALIAS=1),
+                  I('alias_bypass', 'h_alias_bypass', cdefs=od(1, 1), mem_gb=2.5, bound='concrete: offer ["HT-SHA-256SHA-384-NONE"], disabled ["HT-SHA-384-NONE"], token HT-SHA-384-NONE')],
+          BASE),
     ],
     bounds=[], assumptions=[], outside=[],
 )
